@@ -125,7 +125,8 @@ def run_case(spec, ctx):
         ok2, vals2 = geo.as_bool_rows(ans2, N)
         if not ok2:
             ctx.violation("answer-shape", top + "|in-operator", "`points in domain` answer malformed")
-        elif not np.array_equal(vals2, vals):
+        elif not np.array_equal(vals2[st != rg.UNDECIDED], vals[st != rg.UNDECIDED]):
+            # rows on a leaf boundary may flip between two calls (trimesh re-casts rays at random)
             ctx.violation("in-operator", top, "`points in domain` differs from _contains(points, params)")
         # joint permutation
         perm = gen.permutation(N)
@@ -153,7 +154,8 @@ def run_case(spec, ctx):
     for how in ("random", "grid"):
         if has_product and how == "grid":
             continue
-        if cond > 15:
+        abs_tol_leaf = rg.has(E, lambda n: n["t"] in ("poly", "mesh"))
+        if cond > 6 or (abs_tol_leaf and tol["scale"] > 4):
             # the library's boundary tolerances are relative to the shape size (rtol 1e-5 of a
             # radius, 1e-5 in barycentric coordinates, 1e-6 absolute for meshes/polygons); float32
             # coordinates of a small shape far from the origin cannot meet them - not judged
@@ -183,8 +185,11 @@ def run_case(spec, ctx):
     if ext is not None:
         env = geo.env32({kk: np.concatenate([env[kk], ext[kk]]) for kk in env})
     vals = _lib_contains(ctx, D, env, "_contains", top)
+    if vals is not None and cond > 15:
+        ctx.event("far-rows-skipped:ill-conditioned")
+        vals = None
     if vals is not None:
-        st_far = rg.status(E, env, 100 * tol["tol_b"])
+        st_far = rg.status(E, env, min(100 * tol["tol_b"], 0.1 * geo.min_feature(E, penv)))
         bad = (st_far == rg.OUT) & vals
         if bad.any():
             i = np.where(bad)[0][0]
